@@ -52,7 +52,7 @@ if rc != 0:
     all_ok = bool(names)
     for binary, test in names:
         b = binary.split("::")[-1]
-        rr = sh(f"cargo nextest run -p {crate} --offline --test-threads 1 -E 'binary(=~{b}) & test(={test})'")
+        rr = sh(f"cargo nextest run -p {crate} --offline --test-threads 1 -E 'binary(={b}) & test(={test})'")
         passed = rr.returncode == 0
         retried.append({"test": f"{binary} {test}", "passed_alone": passed})
         all_ok &= passed
